@@ -599,7 +599,14 @@ def add(a, b):
         return (a[0], a[1] + b[1])
     if is_const(a) and is_const(b) and isinstance(a[1], (bytes, str)) and type(a[1]) is type(b[1]):
         return const(a[1] + b[1])
-    return _ADD(a, b)
+    # `+` is commutative only on numbers: when neither operand is known to be numeric the order is kept
+    # (the operands may be lists or strings: [witver] + data is not data + [witver])
+    numeric = ('int', 'float', 'bool')
+    if ta in numeric or tb in numeric or _num(a) or _num(b):
+        return _ADD(a, b)
+    if tag(a) in ('list', 'tuple') or tag(b) in ('list', 'tuple') or ta == 'list' or tb == 'list':
+        return ('op', 'SEQCAT', a, b)
+    return ('op', 'PLUS', a, b)
 
 
 _ADD = _arith('ADD', lambda x, y: x + y)
